@@ -28,6 +28,8 @@ def run(ctx, repo):
     RR.r_sole_writer(ctx, repo)
     RX.r_no_process_state(ctx, repo)
     RX.r_dispose_chain(ctx, repo, ['loader.SafeLoader', 'loader.FullLoader', 'loader.Loader', 'cyaml.CSafeLoader', 'cyaml.CLoader', 'dumper.SafeDumper', 'dumper.Dumper', 'cyaml.CSafeDumper', 'cyaml.CDumper'])
+    RX.r_no_generator_around_callback(ctx, repo)
+
 
 if __name__ == '__main__':
     sys.exit(report.main('C19', 'proof', run))
